@@ -463,10 +463,26 @@ fn known_probe(st: &mut St, rt: &tokio::runtime::Runtime) {
             Instrument::spot(BinanceSpot, name(BinanceSpot, "xbt_usdt"), "XBTUSDT", Underlying::new(Asset::new("btc", "XBT"), a("USDT")), None),
         ]),
     ];
-    for (what, defs) in probes {
+    for (k, (what, defs)) in probes.into_iter().enumerate() {
+        // probe 1 (two contracts of one underlying built through the official From<InstrumentConfig> path) is INSIDE the property's domain and is
+        // a recorded KNOWN FINDING (see /verif/KNOWN_FINDINGS): it always runs and is reported under its own label, so that it masks nothing else.
+        // Probes 0 and 2 (hand-made collections that reuse an internal name / spell one asset two ways) are outside the domain: only with VX_C11_KNOWN=1.
+        if k != 1 && std::env::var("VX_C11_KNOWN").is_err() { continue; }
         st.n += 1;
-        let input = &|| format!("[outside the input domain: {what}] {}", describe(&defs));
+        let input = &|| format!("[{what}] {}", describe(&defs));
         let Ok(ix) = catch_unwind(AssertUnwindSafe(|| IndexedInstruments::new(defs.iter().cloned()))) else { st.fail(L_SET, input, "IndexedInstruments::new panicked".into(), "indexed collection".into()); continue; };
+        if k == 1 {
+            // the official config path: one label of its own
+            let ins = ix.instruments();
+            let clash = ins.len() == 2 && ins[0].value.name_internal == ins[1].value.name_internal && ins[0].value.exchange.value == ins[1].value.exchange.value;
+            let states = catch_unwind(AssertUnwindSafe(|| barter::engine::state::instrument::generate_indexed_instrument_states::<_, _, _, ()>(&ix, DateTime::<Utc>::MIN_UTC, Default::default, Default::default, || ()))).ok();
+            let short = states.as_ref().map(|s| s.0.len() != ins.len()).unwrap_or(true);
+            let first = ix.find_instrument_index(ins[1].value.exchange.value, &ins[1].value.name_internal).ok();
+            if clash || short || first != Some(ins[1].key) {
+                report("C11.bounded.config_contracts_share_internal_name", input(), format!("{} indexed instruments share (exchange, internal name) {}; find_instrument_index(second) = {:?}; engine instrument table holds {:?} states", ins.len(), ins[0].value.name_internal, first, states.map(|s| s.0.len())), "distinct contracts get distinct internal names, one engine state each, and are found under their own index".into());
+            }
+            continue;
+        }
         // report per probe, not once per label
         let mut local = St { seen: HashSet::new(), n: 0, e2e_broken: false };
         check_structure(&mut local, &defs, &ix, input);
@@ -516,7 +532,7 @@ pub fn run(seed: u64, thorough: bool) -> u64 {
             for i in (1..seq.len()).rev() { let j = rng.below(i as u64 + 1) as usize; seq.swap(i, j); }
         }
     }
-    if std::env::var("VX_C11_KNOWN").is_ok() { known_probe(&mut st, &rt); }
+    known_probe(&mut st, &rt);
     std::panic::set_hook(hook);
     st.n
 }
